@@ -1,11 +1,85 @@
 /-
-  Simulator bookkeeping (split, batches, statistics, default evaluator) — see Props/C16.
+  Simulator bookkeeping: train/test split, online batches, per-arm statistics, `default_evaluator`,
+  and the shared distance list of `_RadiusSimulator` / `_KNearestSimulator` (cache per metric).
 -/
 import MabModel.Core.Bandit
 open Py
 
 namespace Mab
 
-def simLine (_toks : List String) : Option String := none
+/-- ordered split: the first `k` rows train, the remaining rows test (`test_indices = range(k, n)`) -/
+def orderedSplit (n k : Nat) : List Nat × List Nat := (List.range k, (List.range n).drop k)
+
+/-- `for i in range(ceil(n / b)): rows[start : min(start + b, n + 1)]; start += b` -/
+def batchBounds (n b : Nat) : List (Nat × Nat) :=
+  (List.range ((n + b - 1) / b)).map fun i => (i * b, min (i * b + b) (n + 1))
+
+/-- python slicing `l[start:stop]` (clamped at the end of the list) -/
+def sliceOf {β : Type} (l : List β) (p : Nat × Nat) : List β := (l.drop p.1).take (p.2 - p.1)
+
+structure Stat where
+  count : Nat := 0
+  sum : Rat := 0
+  min : Rat := 0
+  max : Rat := 0
+  mean : Rat := 0
+deriving Repr, DecidableEq, Inhabited
+
+def listMin : List Rat → Rat
+  | [] => 0
+  | x :: xs => xs.foldl (fun m y => if y < m then y else m) x
+
+def listMaxR : List Rat → Rat
+  | [] => 0
+  | x :: xs => xs.foldl (fun m y => if m < y then y else m) x
+
+/-- `Simulator.get_stats` / the all-zero record of `get_arm_stats` for an arm without rows -/
+def getStats (rs : List Rat) : Stat :=
+  if rs.length = 0 then {}
+  else { count := rs.length, sum := rs.sum, min := listMin rs, max := listMaxR rs, mean := rs.sum / (rs.length : Rat) }
+
+variable {α : Type} [DecidableEq α]
+
+def armRewards (decisions : List α) (rewards : List Rat) (a : α) : List Rat :=
+  (List.zip decisions rewards).filterMap fun p => if p.1 = a then some p.2 else none
+
+/-- `get_arm_stats` -/
+def armStats (arms : List α) (decisions : List α) (rewards : List Rat) : Dict α Stat :=
+  arms.map fun a => (a, getStats (armRewards decisions rewards a))
+
+/-- the rewards `default_evaluator` credits to arm `a` (non-neighbourhood branch): the observed reward
+    where the prediction equals the logged decision, otherwise the arm's training statistic -/
+def credited (decisions : List α) (rewards : List Rat) (predictions : List α) (train : α → Rat) (a : α) : List Rat :=
+  (List.zip predictions (List.zip decisions rewards)).filterMap fun p =>
+    if p.1 = a then some (if p.1 = p.2.1 then p.2.2 else train a) else none
+
+def evaluate (arms : List α) (decisions : List α) (rewards : List Rat) (predictions : List α) (train : α → Rat) :
+    Dict α (List Rat) :=
+  arms.map fun a => (a, credited decisions rewards predictions train a)
+
+/-! ### shared distances -/
+
+/-- `calculate_distances`: one distance vector per query row, in row order -/
+def simDistances (dist : Vec → Vec → Rat) (hist : List Vec) (qs : List Vec) : List (List Rat) :=
+  qs.map fun q => hist.map fun h => dist h q
+
+/-- the per-chunk cache: distances are computed by the first neighbour bandit *with that metric* and
+    handed to later bandits with the same metric -/
+def simCache {μ : Type} [DecidableEq μ] (dist : μ → Vec → Vec → Rat) (hist : List Vec) (qs : List Vec) :
+    List μ → Dict μ (List (List Rat)) → List (μ × List (List Rat)) × Dict μ (List (List Rat))
+  | [], cache => ([], cache)
+  | m :: ms, cache =>
+    match cache.get? m with
+    | some d =>
+      let r := simCache dist hist qs ms cache
+      ((m, d) :: r.1, r.2)
+    | none =>
+      let d := simDistances (dist m) hist qs
+      let r := simCache dist hist qs ms (cache.set m d)
+      ((m, d) :: r.1, r.2)
+
+/-- `_RadiusSimulator._predict_contexts`: row `index` of the worker that starts at `start` -/
+def simRadiusSelect (distances : List (List Rat)) (start index : Nat) (bound : Rat) : List Nat :=
+  ((distances.getD (start + index) []).zipIdx.filterMap fun (p : Rat × Nat) => if p.1 ≤ bound then some p.2 else none)
 
 end Mab
